@@ -100,36 +100,14 @@ def run(ctx, report):
     # ------------------------------------------------------------------ R15-state
     r_s = report.rule("R15-state", floor=55, what="no registered algorithm reads instance state that the current call has not written")
     reg = ctx.registry
-    for r in sorted(facts.registrations(), key=lambda x: x.key):
-        it = facts.interp(max_paths=30000)
-        it.no_split = 1
-        it.track_loads = True
-        if r.prefix == "DE":
-            comps = [AStr([DIGITS] * 10)]
-            exp = ""
-        else:
-            if r.prefix not in reg.countries:
-                continue
-            obj0 = it.instantiate(r.cls, [], {}, None)
-            acc = it.getattr(obj0, "accepts")
-            comps = [component_value(reg, r.prefix, str(c)) for c in acc]
-            exp = component_value(reg, r.prefix, "national_checksum_digits")
-        stale = {}
-        for method, args in (("validate", lambda: [list(comps), exp]), ("compute", lambda: [list(comps)])):
-            def thunk():
-                obj = it.instantiate(r.cls, [], {}, None)
-                obj.written = set()
-                return it.call(it.getattr(obj, method), args(), {})
-            try:
-                outs = it.explore(thunk)
-            except (CannotEvaluate, PathLimit) as e:
-                raise AnalysisError(f"cannot evaluate {r.cls.short}.{method}: {e}")
-            for o in outs:
-                for e in o.events:
-                    if e["kind"] == "stale_read" and id(e["obj"].cls) in shared:
-                        stale.setdefault((e["attr"], e["func"]), e)
+    from ..state_eval import explore_algorithms
+    per_reg, shared_writes = explore_algorithms(ctx, shared)
+    for r, stale in per_reg:
         r_s.instance({"key": r.key, "stale reads": sorted(f"{a} in {f}" for a, f in stale)} if (stale or len(r_s.samples) < 3) else None)
         for (attr, fn), e in stale.items():
             r_s.finding(f"{r.cls.short}:{attr}@{fn}", f"{fn} reads self.{attr} before the current call has written it: the value left by an earlier call "
                         "(possibly for another account) decides the result", e["where"])
+    for (name, fn, where), e in sorted(shared_writes.items(), key=lambda kv: str(kv[0])):
+        r_s.finding(f"{fn}:{name}", f"{fn} writes into {name}, an object created once at class / module level and shared by every call "
+                    f"({e['kind']} {e.get('attr') or e.get('op') or ''}): a later call sees what an earlier one left there", where)
     report.assumptions += ["pycountry and re are history-independent (library model)"]
